@@ -408,6 +408,59 @@ def gen_case1(rng, cfg, H):
 
 
 
+# --- invocations that begin inside a replacement list and end after it (6.10.3.4p1: "the rest of the source
+#     file's preprocessing tokens"), with commas and parentheses produced by macros inside the arguments ----------
+def gen_open(rng, H):
+    """`#define O f ( 1` ... `O S 2 , 3 )`: the depth bookkeeping of expandfunc across the end of a frame"""
+    callee = rng.choice(FUN)
+    npar = rng.choice([1, 2, 2, 3])
+    variadic = rng.random() < 0.4
+    params = ["a", "b", "c"][:npar]
+    body = []
+    for _ in range(rng.choice([1, 2, 3, 4])):
+        r = rng.random()
+        if r < 0.55:
+            body.append(rng.choice(params + (["__VA_ARGS__"] if variadic else [])))
+        elif r < 0.8:
+            body.append(rng.choice(["+", "|", "[", "]", "x"]))
+        else:
+            body.append(rng.choice(NUMS))
+    lines = ["#define %s(%s) %s" % (callee, ", ".join(params + (["..."] if variadic else [])), " ".join(body))]
+    punct = {"S": ",", "L": "(", "R": ")", "P": "( 7 )", "Q": "8 , 9"}
+    used = rng.sample(sorted(punct), rng.choice([1, 2, 3]))
+    for k in used:
+        lines.append("#define %s %s" % (k, punct[k]))
+    # the opening macro, possibly reached through further object-like macros, possibly with arguments already done
+    pre = [callee, "("]
+    done = rng.choice([0, 0, 1]) if npar > 1 else 0
+    for _ in range(done):
+        pre += [rng.choice(NUMS), ","]
+    if rng.random() < 0.7:
+        pre.append(rng.choice(NUMS + PLAIN))
+    lines.append("#define O " + " ".join(pre))
+    opener = "O"
+    for w in ["W", "V"][:rng.choice([0, 0, 1, 2])]:
+        lines.append("#define %s %s%s" % (w, rng.choice(["", "y "]), opener))
+        opener = w
+    rest = []
+    for _ in range(rng.choice([1, 2, 3, 5])):
+        r = rng.random()
+        if r < 0.45:
+            rest.append(rng.choice(used))
+        elif r < 0.6:
+            rest.append(",")
+        elif r < 0.7:
+            rest += ["(", rng.choice(NUMS + used), ")"]
+        else:
+            rest.append(rng.choice(NUMS + PLAIN))
+    use = [opener] + rest + [")"] + ([rng.choice(PLAIN + used)] if rng.random() < 0.5 else []) + [";"]
+    if rng.random() < 0.3:
+        use += [opener] + [rng.choice(NUMS), ")"]
+    lines.append(" ".join(use))
+    H["open-invocation-units"] += 1
+    return "\n".join(lines) + "\n"
+
+
 # --- the class of function_like_correct_init ----------------------------------------------------------
 def gen_simple(rng, H):
     """object-like macros (referring to each other and to themselves) together with function-like macros of
@@ -1507,7 +1560,8 @@ def run(ck):
         "invocations, invocations split across lines, function-like names without '(', parentheses and commas in "
         "arguments, empty arguments, #undef/#define histories, #pragma/#line/null directives) inside free token "
         "sequences and inside valid C programs; a redefinition stream (6.10.3p2); a diagnostics stream; one small "
-        "stream per recorded known finding.  K-B: IL(P) = IL(gcc -E -P P) byte for byte with the freshly built "
+        "stream per recorded known finding; a stream of invocations that begin inside a replacement list and end "
+        "after it with commas/parentheses produced by macros inside the arguments (open-invocations).  K-B: IL(P) = IL(gcc -E -P P) byte for byte with the freshly built "
         "cproc-qbe.  Reference validated against gcc and clang.  distinct_nontrivial = distinct input texts.")
     X = Ctx()
     X.ck = ck
@@ -1620,6 +1674,14 @@ def run(ck):
         cfg_k = Cfg(str_and_tok=True, unbalanced=True)
         examine(X, [gen_case(rng, cfg_k, H) for _ in range(100 if quick else 1500)], "macro-sets-unrestricted",
                 asan=60 if quick else 500)
+    # 5b. invocations that cross the end of a replacement list, punctuation from macros in the arguments (own
+    #     generator state)
+    if go_on(X):
+        import random
+        rng_o = random.Random("c12-open-%r" % (rng.getstate()[1][0],))
+        opn = sorted(set(gen_open(rng_o, H) for _ in range(150 if quick else 1500)))
+        examine(X, opn, "open-invocations", asan=60 if quick else 400)
+        ck.sample({"open invocation": opn[0][:400]})
     # 6. valid programs: K-A and K-B
     progs = []
     if go_on(X):
